@@ -1296,6 +1296,13 @@ pub fn array_splice(
 
     drop(arr_ref);
     let guard = interp.heap.create_guard();
+    // The removed elements are no longer in the array and not yet in the result:
+    // allocating the result array may collect, so root them first
+    for value in &removed {
+        if let JsValue::Object(obj) = value {
+            guard.guard(obj.cheap_clone());
+        }
+    }
     let arr = interp.create_array_from(&guard, removed);
     Ok(Guarded::with_guard(JsValue::Object(arr), guard))
 }
